@@ -587,3 +587,120 @@ pub fn c06_relation(args: &Args, s: &mut Summary) {
     }
     s.sample(json!({"runs": runs, "lines_per_run": nlines}));
 }
+
+// ---------------------------------------------------------------------------
+// HitObjectLine!EncOf: what the encoder writes for each decoded object of a file (type byte, hit-sound byte,
+// position, end, span count, node sounds and node banks, bank info), compared with the model field by field.
+pub fn codec(args: &Args, s: &mut Summary) {
+    let mut rng = Rng::new(args.seed);
+    let mut alpha: Vec<Value> = vec![];
+    args.for_each_case(|_, c| {
+        if let Some(a) = c.get("alpha") {
+            alpha = a.as_array().unwrap().clone();
+            return;
+        }
+        let lines: Vec<&Value> = geta(&c, "h").iter().map(|k| &alpha[k.as_u64().unwrap() as usize - 1]).collect();
+        let want = geta(&c, "enc");
+        let objs = geta(&c, "objs");
+        // the encoder writes objects in time order: only files whose accepted lines are already in that order
+        let times: Vec<i64> = objs.iter().map(|o| geti(o, "t")).collect();
+        if want.is_empty() || times.windows(2).any(|w| w[1] < w[0]) {
+            return;
+        }
+        s.cases += 1;
+        s.nontrivial_key(&c["h"].to_string());
+        let texts: Vec<String> = lines.iter().map(|l| spell_line(l, &mut rng)).collect();
+        let file = format!("osu file format v14\n\n[HitObjects]\n{}\n", texts.join("\n"));
+        let r = guarded(&format!("hitobj codec {texts:?}"), || {
+            let mut m = rosu_map::from_str::<rosu_map::Beatmap>(&file).map_err(|e| e.to_string())?;
+            m.encode_to_string().map_err(|e| e.to_string())
+        });
+        s.checks += 1;
+        let enc = match r {
+            Err(p) => {
+                s.mismatch("panic", json!({"texts": texts, "panic": p}));
+                return;
+            }
+            Ok(Err(e)) => {
+                s.mismatch("io-error", json!({"texts": texts, "err": e}));
+                return;
+            }
+            Ok(Ok(t)) => t,
+        };
+        let out: Vec<&str> = enc.lines().skip_while(|l| *l != "[HitObjects]").skip(1).filter(|l| !l.trim().is_empty()).collect();
+        if out.len() != want.len() {
+            s.mismatch("line-codec:count", json!({"texts": texts, "encoded": out, "want": want.len()}));
+            return;
+        }
+        for (j, (line, w)) in out.iter().zip(want.iter()).enumerate() {
+            let f: Vec<&str> = line.split(',').collect();
+            let numeq = |a: &str, b: i64| a.trim().parse::<f64>().map_or(false, |x| x == b as f64);
+            let kind = gets(&objs[j], "k");
+            let bi_text = |b: &Value| format!("{}:{}:{}:{}:{}", geti(b, "b1"), geti(b, "b2"), geti(b, "cu"), geti(b, "vo"), gets(b, "fn"));
+            let mut bad: Vec<String> = vec![];
+            if f.len() < 5 {
+                bad.push("fields".into());
+            } else {
+                if !numeq(f[0], geti(w, "x")) || !numeq(f[1], geti(w, "y")) {
+                    bad.push("position".into());
+                }
+                if !numeq(f[2], geti(w, "t")) {
+                    bad.push("time".into());
+                }
+                if f[3] != geti(w, "ty").to_string() {
+                    bad.push(format!("type byte {} (model {})", f[3], geti(w, "ty")));
+                }
+                if f[4] != geti(w, "snd").to_string() {
+                    bad.push(format!("hit-sound byte {} (model {})", f[4], geti(w, "snd")));
+                }
+                match kind {
+                    "circle" => {
+                        if f.get(5).copied() != Some(bi_text(&w["bi"]).as_str()) {
+                            bad.push(format!("bank info {:?} (model {})", f.get(5), bi_text(&w["bi"])));
+                        }
+                    }
+                    "spinner" => {
+                        if !f.get(5).map_or(false, |x| numeq(x, geti(w, "end"))) || f.get(6).copied() != Some(bi_text(&w["bi"]).as_str()) {
+                            bad.push(format!("spinner end / bank info {:?} (model {} / {})", &f[5..], geti(w, "end"), bi_text(&w["bi"])));
+                        }
+                    }
+                    "hold" => {
+                        let rest = f[5..].join(",");
+                        let (e, b) = rest.split_once(':').unwrap_or((&rest, ""));
+                        if !numeq(e, geti(w, "end")) || b != bi_text(&w["bi"]) {
+                            bad.push(format!("hold end / bank info {rest:?} (model {}:{})", geti(w, "end"), bi_text(&w["bi"])));
+                        }
+                    }
+                    _ => {
+                        // x,y,t,ty,snd,PATH,spans,len,nsnd,nbank,bi
+                        if f.len() != 11 {
+                            bad.push(format!("{} fields in a slider line", f.len()));
+                        } else {
+                            if f[6] != geti(w, "spans").to_string() {
+                                bad.push(format!("span count {} (model {})", f[6], geti(w, "spans")));
+                            }
+                            let ns: Vec<String> = geta(w, "nsnd").iter().map(|x| x.to_string()).collect();
+                            if f[8] != ns.join("|") {
+                                bad.push(format!("node sounds {} (model {})", f[8], ns.join("|")));
+                            }
+                            let nb: Vec<String> = geta(w, "nbank").iter().map(|b| format!("{}:{}", geti(b, "b1"), geti(b, "b2"))).collect();
+                            if f[9] != nb.join("|") {
+                                bad.push(format!("node banks {} (model {})", f[9], nb.join("|")));
+                            }
+                            if f[10] != bi_text(&w["bi"]) {
+                                bad.push(format!("bank info {} (model {})", f[10], bi_text(&w["bi"])));
+                            }
+                        }
+                    }
+                }
+            }
+            if !bad.is_empty() {
+                s.mismatch(&format!("line-codec:{kind}"), json!({"texts": texts, "object": j + 1, "encoded": line, "differs": bad}));
+                break;
+            }
+        }
+        if s.samples.len() < 3 {
+            s.sample(json!({"texts": texts, "encoded": out}));
+        }
+    });
+}
